@@ -1,25 +1,33 @@
 #!/usr/bin/env python3
-"""seeded_all.py [seed ...]: for every /verif/seeded/<ID>, apply patch.diff to a scratch copy of /repo and run the
-property's own check (quick tier) against it with each VERIF_SEED; prints one line per (seeded change, seed)."""
-import json, os, shutil, subprocess, sys, tempfile
+"""seeded_all.py [seed ...]: for every /verif/seeded/<ID>[-rN], apply patch.diff to a scratch copy of /repo and run the
+property's own check (quick tier) against it with each VERIF_SEED; prints one line per (seeded change, seed).
+Evidence and replays of these runs go to a scratch directory (VERIF_OUT), never to /verif.  SEEDED_PAR = parallel jobs (4)."""
+import os, shutil, subprocess, sys, tempfile
+from concurrent.futures import ThreadPoolExecutor
 seeds = sys.argv[1:] or ["0"]
 root = "/verif/seeded"
-miss = 0
-for pid in sorted(os.listdir(root)):
+
+
+def one(pid):
     d = tempfile.mkdtemp(prefix="seeded-")
+    out = tempfile.mkdtemp(prefix="seeded-out-")
+    lines, miss = [], 0
     try:
         subprocess.check_call(["rsync", "-a", "--exclude", ".git", "/repo/", d + "/"])
         p = subprocess.run(["patch", "-p1", "-s", "-i", os.path.join(root, pid, "patch.diff")], cwd=d, capture_output=True, text=True)
         if p.returncode != 0:
-            print(pid, "PATCH DOES NOT APPLY", p.stdout[-200:]); miss += 1; continue
+            return ["%s PATCH DOES NOT APPLY %s" % (pid, p.stdout[-200:])], 1
         for s in seeds:
-            r = subprocess.run(["/verif/check", pid.split("-")[0], "quick"], env=dict(os.environ, VERIF_REPO=d, VERIF_SEED=s), capture_output=True, text=True)
-            for l in r.stdout.splitlines():
-                if l.startswith("VIOLATION") and "replay=" in l:
-                    try: os.remove(l.split("replay=")[1].strip())
-                    except OSError: pass
-            print(pid, "seed", s, "caught" if r.returncode == 1 else "MISSED rc=%d" % r.returncode)
+            r = subprocess.run(["/verif/check", pid.split("-")[0], "quick"], env=dict(os.environ, VERIF_REPO=d, VERIF_SEED=s, VERIF_OUT=out, VERIF_PAR="6"), capture_output=True, text=True)
+            lines.append("%s seed %s %s" % (pid, s, "caught" if r.returncode == 1 else "MISSED rc=%d" % r.returncode))
             if r.returncode != 1: miss += 1
     finally:
-        shutil.rmtree(d, ignore_errors=True)
+        shutil.rmtree(d, ignore_errors=True); shutil.rmtree(out, ignore_errors=True)
+    return lines, miss
+
+
+miss = 0
+with ThreadPoolExecutor(int(os.environ.get("SEEDED_PAR", "4"))) as ex:
+    for lines, m in ex.map(one, sorted(os.listdir(root))):
+        print("\n".join(lines), flush=True); miss += m
 sys.exit(1 if miss else 0)
